@@ -5,6 +5,7 @@ CONSTANTS
   Bursts = {1, 2, 4}
   Kinds = {"PING", "WU0", "DATAC", "SETTINGS"}
   MaxSteps = @STEPS@
+  Histories = {0, 2}
 INIT Init
 NEXT Next
 INVARIANTS Bounded ClosedOver MayOnly Delivered
